@@ -261,9 +261,9 @@ def spaces(tier, seed, all_strata=False):
     strata.append(_sp("c02_runaway_big", "run_runaway", lambda: _runaway_cases([10 ** 7]),
                       "recursion shapes at M = 1e7", "M = 1e7", batch=1))
     strata.append(_sp("c02_longrun", "run_residue",
-                      lambda: _residue_cases(2, C2, pick=(0, 7), extra={"n": 20000, "ml": 65536}),
-                      "black-box confirmation: every 7th depth-2 body x 20000 iterations under memory_limit = 64 kB must "
-                      "not raise MemoryLimitError", "20000 iterations", batch=5, nontrivial=_nontrivial))
+                      lambda: _residue_cases(2, C2, pick=(0, 97), extra={"n": 3000, "ml": 65536}),
+                      "black-box confirmation: every 97th depth-2 body x 3000 iterations under memory_limit = 64 kB must "
+                      "not raise MemoryLimitError", "3000 iterations", batch=5, nontrivial=_nontrivial))
     if tier == "thorough" or all_strata:
         return core + strata
     quickable = [s for s in strata if s.name.startswith("c02_residue_d3")]
